@@ -24,7 +24,8 @@ from c07 import build, NN  # noqa: F401
 THEOREMS = ['C08_uniform', 'C08_zero', 'C08_volume', 'C08_uncorrected_overcounts', 'C08_nested', 'C08_poolMerge',
             'C08_accept', 'C08_radial', 'C08_ellVolume', 'C08_unitBall']
 TIE_THEOREMS = ['C08_tie_formulas', 'C08_tie_union_loop', 'C08_tie_nautilus_loop', 'C08_tie_ellipsoid_logv']
-MODULE = [('NautilusVerif.Properties.C08', THEOREMS), ('NautilusVerif.Properties.C08Buf', None), ('NautilusVerif.Properties.C08Tie', TIE_THEOREMS)]
+MODULE = [('NautilusVerif.Properties.C08', THEOREMS), ('NautilusVerif.Properties.C08Buf', None), ('NautilusVerif.Properties.C08Tie', TIE_THEOREMS),
+          ('NautilusVerif.Properties.CoreTie', ['Core_tie_nautilusSample', 'Core_tie_nautilusResetAndSample', 'Core_tie_nautilusReset', 'Core_tie_unionReset'])]
 FILES = ['nautilus/bounds/union.py', 'nautilus/bounds/nautilus.py', 'nautilus/bounds/basic.py']
 ALPHA = 1e-9
 
@@ -319,7 +320,7 @@ def run(chk):
     chk.extra['translator'] = notes
     import gen_c07
     text7, _ = gen_c07.generate(common.REPO)
-    chk.prove(MODULE, None, {'NautilusVerif/Generated/C08.lean': text, 'NautilusVerif/Generated/C07.lean': text7})
+    chk.prove(MODULE, None, {'NautilusVerif/Generated/C08.lean': text, 'NautilusVerif/Generated/C07.lean': text7, 'NautilusVerif/Generated/CoreSrc.lean': __import__('gen_core').generate(common.REPO)[0]})
     if chk.tier == 'thorough':
         chk.leanchecker([m for m, _ in MODULE])
     buf_stage(chk)
